@@ -410,11 +410,12 @@ class Op:
     copy of the pre-snapshot into the expected post-state and returns
     (wild_targets, extra_checks) or None when the statement defines nothing."""
 
-    def __init__(self, desc, run, spec, named=()):
+    def __init__(self, desc, run, spec, named=(), subject=None):
         self.desc = desc
         self.run = run
         self.spec = spec
         self.named = named
+        self.subject = subject
 
 
 def pick_target(U, with_wbs=True):
@@ -788,6 +789,22 @@ def pick_op(U, kinds, seqlen):
         return Op(f'W{w}.remove_all(key_lt_=v)', run, spec)
 
     raise ValueError(kind)
+
+
+def op_subject(U, op):
+    """Index of the task (or ('W', k)) whose own relations the call edits."""
+    import re
+    d = op.desc
+    m = re.match(r"^\('T', (\d+)\)", d)
+    if m:
+        return int(m.group(1))
+    m = re.match(r"^\('W', (\d+)\)", d) or re.match(r"^W(\d+)", d)
+    if m:
+        return ('W', int(m.group(1)))
+    m = re.match(r"^t(\d+)", d)
+    if m:
+        return int(m.group(1))
+    return None
 
 
 def describe(shape):
